@@ -1,17 +1,26 @@
-"""C07 - colliders report consistent ray and ball collisions."""
+"""C07 - colliders report consistent ray and ball collisions.
+
+Stage "voxel" (harness c07-voxel, judge spec/geom/VoxelJudge.tla): mesh / BVH / grouped / nested colliders on voxel
+worlds; on extrusions (a pixel set times a z range, plan items extall / ext) the same oracle judges
+ProfileCollider(MeshToCollider), ProfileCollider(JoinedCollider) over the 2-D outline of the pixel set (clause "scan" is
+vacuous for them: they have no triangles to scan) and ProfileSolid(ColliderSolid), ProfileSolid(BitmapToSolid) (clause
+"contains").  Stage "prims": see c07_prims."""
 import solids
 
 
 def run(ctx):
     quick = ctx.tier == "quick"
     ctx.rule = ("voxel worlds: every non-empty subset of a 2x2x2 grid and seeded subsets of larger grids, as mesh collider, "
-                "area-density BVH, grouped-triangle collider and randomly nested joined colliders; seeded rays with "
+                "area-density BVH, grouped-triangle collider and randomly nested joined colliders, extrusions of pixel sets as "
+                "profile colliders / solids; seeded rays with "
                 "half-integer origins and integer directions scaled by 2^-e (e up to 30), balls of radius m/2, segment / "
                 "box / triangle queries; non-trivial = every record (non-empty world)")
     ctx.assumptions = ["rays not in general position (VoxelSurface!GP) are only compared with the literal linear scan",
-                       "ball tangency (D2 = r^2) is not decided", "curved primitives: see level_note"]
+                       "ball tangency (D2 = r^2) is not decided", "curved primitives: see level_note",
+                       "profile colliders: rays whose xy-shadow passes through an outline vertex are not asked (finding D1 pending)"]
     ctx.build_harness()
     plan = "all:2,2,2;rand:3,3,2:%d;rand:4,3,3:%d" % ((25, 6) if quick else (400, 100))
+    plan += ";extall:2,2,2;ext:3,3,2:%d;ext:4,3,3:%d" % ((25, 6) if quick else (300, 80))
     solids.judge_stage(ctx, "voxel", ["c07-voxel", "kinds=collider", "plan=" + plan, "rays=%d" % (40 if quick else 80),
                                       "spheres=%d" % (24 if quick else 48)],
                        {"panic", "scan", "count", "hits", "first", "parity", "sphere", "segment", "contains"},
